@@ -95,20 +95,29 @@ SetValueB(t, v, d) ==        \* a conflict is reported as None, nothing changes
 Range(s) == {s[j] : j \in 1..Len(s)}
 HasDup(ts) == \E j, k \in 1..Len(ts) : j # k /\ ts[j] = ts[k]
 
-RECURSIVE WriteAll(_, _, _, _)
-WriteAll(s, ts, vs, j) ==
-    IF j > Len(ts) THEN s
-    ELSE LET i == Find(ts[j], Len0) IN
-         WriteAll([s EXCEPT ![i][ts[j]] = vs[j]], ts, vs, j + 1)
+\* the public entry points: the two registry methods, the tuple trait's own `try_get_mut` (a safe public method of
+\* the public trait MultiStateTuple) and its `distinct` predicate; all of them callable on the registry itself or on
+\* an ancestor reached through parent_mut() (d > 0)
+MultiForms == {"try_get_multiple_mut", "get_multiple_mut", "tuple_try_get_mut", "tuple_distinct"}
 
-MultiMut(ts, vs, f) ==       \* f = "try_get_multiple_mut" | "get_multiple_mut"
+RECURSIVE WriteAll(_, _, _, _, _)
+WriteAll(s, ts, vs, j, top) ==
+    IF j > Len(ts) THEN s
+    ELSE LET i == Find(ts[j], top) IN
+         WriteAll([s EXCEPT ![i][ts[j]] = vs[j]], ts, vs, j + 1, top)
+
+MultiMut(ts, vs, f, d) ==
     /\ UNCHANGED <<guards, held>>
-    /\ IF HasDup(ts) THEN
-            res' = R(IF f = "get_multiple_mut" THEN "panic" ELSE "duplicate", NoVal) /\ UNCHANGED scopes
-       ELSE IF \E j \in 1..Len(ts) : Find(ts[j], Len0) = 0 THEN
-            res' = R(IF f = "get_multiple_mut" THEN "panic" ELSE "notfound", NoVal) /\ UNCHANGED scopes
+    /\ IF f = "tuple_distinct" THEN
+            res' = R("bool", IF HasDup(ts) THEN 0 ELSE 1) /\ UNCHANGED scopes
+       ELSE IF HasDup(ts) \/ \E j \in 1..Len(ts) : Find(ts[j], View(d)) = 0 THEN
+            \* refused; WHICH error is reported for a tuple that both repeats a type and names a missing one is open
+            /\ res' \in {R(IF f = "get_multiple_mut" THEN "panic" ELSE k, NoVal) :
+                            k \in (IF HasDup(ts) THEN {"duplicate"} ELSE {})
+                                   \cup (IF \E j \in 1..Len(ts) : Find(ts[j], View(d)) = 0 THEN {"notfound"} ELSE {})}
+            /\ UNCHANGED scopes
        ELSE \* v = 1: the references were pairwise distinct objects and each write read back
-            res' = R("ok", 1) /\ scopes' = WriteAll(scopes, ts, vs, 1)
+            res' = R("ok", 1) /\ scopes' = WriteAll(scopes, ts, vs, 1, View(d))
 
 ---------------------------------------------------------------------------
 (* holding: take out, run body, put back                                    *)
@@ -150,7 +159,7 @@ DoB(a) ==
       [] a.op = "read"      -> act' = a /\ TempRead(a.t, a.d, a.f)
       [] a.op = "write"     -> act' = a /\ TempWrite(a.t, a.v, a.d, a.f)
       [] a.op = "set_value" -> act' = a /\ SetValueB(a.t, a.v, a.d)
-      [] a.op = "multi"     -> act' = a /\ MultiMut(a.ts, a.vs, a.f)
+      [] a.op = "multi"     -> act' = a /\ MultiMut(a.ts, a.vs, a.f, a.d)
       [] a.op = "hold_enter" -> act' = a /\ HoldEnter(a.t)
       [] a.op = "hold_write" -> act' = a /\ HoldWrite(a.v)
       [] a.op = "hold_exit"  -> act' = a /\ HoldExit(a.f)
@@ -172,8 +181,8 @@ SharedActs ==
 
 MutActs ==
     {Lift(a) : a \in {x \in Acts : x.op \in RegistryMutOps}}
-    \cup {BA("multi", NoT, NoVal, NoVal, 0, f, ts, [j \in 1..Len(ts) |-> (j % 2)]) :
-             ts \in Tuples, f \in {"try_get_multiple_mut", "get_multiple_mut"}}
+    \cup {BA("multi", NoT, NoVal, NoVal, d, f, ts, [j \in 1..Len(ts) |-> (j % 2)]) :
+             ts \in Tuples, f \in MultiForms, d \in Depths}
     \cup {BA("hold_enter", t, NoVal, NoVal, 0, "-", <<>>, <<>>) : t \in Type}
     \cup {BA("inner", t, v, NoVal, 0, f, <<>>, <<>>) : t \in Type, v \in Val, f \in {"ok", "fail"}}
     \cup (IF Len(held) > 0
@@ -255,18 +264,23 @@ ReadViaExact ==
     [][ act'.op = "read_via" => res'.v = scopes[guards[act'.v].i][guards[act'.v].t]
                                 /\ scopes' = scopes ]_bvars
 
-\* multi-borrow: fails iff a type repeats or is missing; else distinct objects, innermost bindings
+\* multi-borrow: fails iff a type repeats or is missing -- through every public entry point; else distinct objects,
+\* each member the innermost binding of its type in the caller's view, whatever the order of the members
 MultiBorrowSound ==
     [][ act'.op = "multi" =>
           LET ts == act'.ts
+              top == Len0 - act'.d
               dup == \E j, k \in 1..Len(ts) : j # k /\ ts[j] = ts[k]
-              missing == \E j \in 1..Len(ts) : Innermost(scopes, ts[j], Len0) = 0 IN
+              missing == \E j \in 1..Len(ts) : Innermost(scopes, ts[j], top) = 0 IN
+          IF act'.f = "tuple_distinct" THEN res' = R("bool", IF dup THEN 0 ELSE 1) /\ scopes' = scopes
+          ELSE
           /\ (res'.k = "ok") <=> (~dup /\ ~missing)
-          /\ dup => res'.k \in {"duplicate", "panic"}
+          /\ (dup /\ ~missing) => res'.k \in {"duplicate", "panic"}
+          /\ res'.k = "duplicate" => dup
           /\ res'.k = "ok" =>
                 /\ res'.v = 1
-                /\ \A j \in 1..Len(ts) : scopes'[Innermost(scopes, ts[j], Len0)][ts[j]] = act'.vs[j]
-                /\ \A c \in Cells : (\A j \in 1..Len(ts) : c # <<Innermost(scopes, ts[j], Len0), ts[j]>>)
+                /\ \A j \in 1..Len(ts) : scopes'[Innermost(scopes, ts[j], top)][ts[j]] = act'.vs[j]
+                /\ \A c \in Cells : (\A j \in 1..Len(ts) : c # <<Innermost(scopes, ts[j], top), ts[j]>>)
                                        => scopes'[c[1]][c[2]] = scopes[c[1]][c[2]] ]_bvars
 
 \* holding: the state is taken from the innermost scope holding it and comes back into
